@@ -582,16 +582,24 @@ fn run_fmt(a: &Args, o: &mut Obs) {
     let nrand = a.usize("random", 2000);
     let mut idx = 0usize;
     fmt_one(o, &[], shard, "tbl:fmt:empty");
+    // `--no-exhaustive`: single bytes and seeded strings only (slices interpreted for other targets under Miri)
+    let exhaustive = !a.flag("no-exhaustive");
     for v in 0..256usize {
         idx += 1;
         if idx % nshards == shard {
             for rep in 0..NB {
+                if !exhaustive && rep != v % NB {
+                    continue; // one representation per byte in the reduced (Miri) mode
+                }
                 fmt_one(o, &[v as u8], rep, &format!("tbl:fmt:1:{v}"));
             }
             o.inc("strings");
         }
     }
     for v in 0..65536usize {
+        if !exhaustive {
+            break;
+        }
         idx += 1;
         if idx % nshards == shard {
             let x = [(v >> 8) as u8, v as u8];
@@ -605,6 +613,7 @@ fn run_fmt(a: &Args, o: &mut Obs) {
         // spaces and printable bytes, so that any chunking / wrapping of the output is exercised
         let long = k % 4 == 3;
         let n = if long { *r.pick(&[63usize, 64, 65, 100, 127, 128, 129, 200, 255, 256, 257, 600]) + r.below(3) } else { 3 + r.below(60) };
+        let n = if exhaustive { n } else { n.min(70) };
         let x: Vec<u8> = (0..n).map(|i| if long && (i % 64 == 0 || r.chance(1, 4)) { *r.pick(&[b' ', b' ', b'a', b'\t', b'Z', b'~']) } else if r.chance(1, 3) { *r.pick(&[0u8, b'0', b'7', b'\\', b'"', b'\'', b'\n', b'\r', b'\t', 0x7f, 0x80, 0xff, b'x', b'b']) } else { r.byte() }).collect();
         fmt_one(o, &x, r.below(NB), &format!("tbl:fmt:rnd:{seed}:{shard}:{k}"));
         o.inc("strings");
